@@ -14,9 +14,21 @@ def run(ctx):
     deadline = ctx["deadline"] or (300 if tier == "quick" else 1800)
     args = [["--tier", tier, "--shard", i, "--nshards", nsh] for i in range(nsh)]
     res = vlib.run_shards(exe, args, env, timeout=deadline, label="xreg")
+    # the same exploration with ORC_CODE=debug in the environment (frame pointers; compile flags are adjusted in this mode)
+    env2 = dict(env)
+    env2["ORC_CODE"] = "debug"
+    res2 = vlib.Results()
+    vlib.run_shards(exe, args, env2, timeout=deadline, res=res2, label="xreg-debug")
+    for v in res2.viol:
+        v["key"] += "|ORC_CODE=debug"
+        v["what"] = "with ORC_CODE=debug: " + v["what"]
+        v.setdefault("replay", {})["orc_code"] = "debug"
+        res.viol.append(v)
+    if res2.incomplete:
+        res.incomplete = True
     shutil.rmtree(scratch, ignore_errors=True)
     st = res.stats
-    n = int(st.get("histories", 0))
+    n = int(st.get("histories", 0)) + int(res2.stats.get("histories", 0))
     cov = {
         "states": n,
         "transitions": n,
@@ -28,7 +40,7 @@ def run(ctx):
                        "depth over the alphabet {register opcode set A {myop,myop2} / B {addbx: extends a built-in name} / C {add: prefix of "
                        "built-in names} (/ D 15-character name), register a rule set for (target, set, required flags in {none, a flag the "
                        "CPU has, a flag it lacks, two flags of which it lacks one, two flags it has}), register an overriding rule set for built-in addw} is applied in a fresh process, within the "
-                       "rule-set capacity of each target; then extension-only, mixed and built-in probe programs are emulated and compiled.",
+                       "rule-set capacity of each target; then extension-only, mixed and built-in probe programs are emulated and compiled (default flags and explicit flag vectors). The whole exploration runs twice: with a clean environment and with ORC_CODE=debug.",
         "oracles": ["names resolve to the application's opcodes", "emulation calls the application's function and equals its reference",
                     "the latest registered rule set whose flags are satisfied is the one used, else no native code and emulation",
                     "native results equal the reference", "built-in programs: identical machine code and results as without registrations "
@@ -48,7 +60,10 @@ def replay(rep):
     scratch = vlib.scratch_dir("C20r")
     bad = []
     for tier in ("quick", "thorough"):
-        p = subprocess.run([exe, "--tier", tier, "--only-history", h], stdout=subprocess.PIPE, env=vlib.scrub_env(scratch=scratch), timeout=1200)
+        e = vlib.scrub_env(scratch=scratch)
+        if rep["replay"].get("orc_code"):
+            e["ORC_CODE"] = rep["replay"]["orc_code"]
+        p = subprocess.run([exe, "--tier", tier, "--only-history", h], stdout=subprocess.PIPE, env=e, timeout=1200)
         bad = [l for l in p.stdout.decode().splitlines() if '"t":"viol"' in l]
         if bad or '"histories":1' in p.stdout.decode():
             break
